@@ -262,3 +262,48 @@ func VerifC09_WeightTotalCountsTheCompetingQueues() {
 	}
 	vr.Assert(getTotalWeightsForUnsatisfied(queues, res) == want, "C09.weight-total-is-the-sum-over-unsatisfied-queues")
 }
+
+// VerifC09_RemainderAcrossPriorities: three queues - one of higher over-quota priority, two of a
+// lower one with equal weights (their round splits the amount in halves, so an odd amount leaves a
+// rounding remainder at the LOWER priority only). The remainder hand-out must reach every priority
+// level that recorded a remainder, whatever the levels above it recorded.
+// BOUND: 3 queues without quota or limit, weights 1; priorities 1, 0, 0; surplus and requests symbolic integers < 2^3 (quick) / 2^4 (thorough); k-value 0
+func VerifC09_RemainderAcrossPriorities() {
+	res := rs.GpuResource
+	bits := vr.Bound("remainderBits", 3, 4)
+	total := vr.AnyFloatNat("surplus", bits)
+	vr.Assume(total > 0)
+	queues := map[common_info.QueueID]*rs.QueueAttributes{}
+	var list []*rs.QueueAttributes
+	for i, name := range []string{"hi", "lo1", "lo2"} {
+		q := &rs.QueueAttributes{UID: common_info.QueueID(name), Name: name}
+		s := q.ResourceShare(res)
+		s.Deserved, s.MaxAllowed, s.FairShare, s.OverQuotaWeight = 0, -1, 0, 1
+		s.Request = vr.AnyFloatNat(name+".request", bits)
+		if i == 0 {
+			q.Priority = 1
+		}
+		queues[q.UID] = q
+		list = append(list, q)
+	}
+	left := divideOverQuotaResource(total, 0, queues, res)
+	sum, allSatisfied := 0.0, true
+	for _, q := range list {
+		s := q.ResourceShare(res)
+		vr.Assert(s.FairShare >= 0 && s.FairShare < s.Request+1, "C09.fair-share-exceeds-request-by-less-than-a-unit")
+		sum += s.FairShare
+		if s.FairShare < s.Request {
+			allSatisfied = false
+		}
+	}
+	vr.Observe("left", left)
+	vr.Assert(left >= 0 && sum+left == total, "C09.surplus-handed-out-never-exceeds-what-is-left")
+	if left > 0 {
+		vr.Assert(allSatisfied, "C09.surplus-stays-only-if-every-weighted-queue-is-satisfied")
+	}
+	hi := list[0].ResourceShare(res)
+	if hi.FairShare < hi.Request {
+		vr.Assert(list[1].ResourceShare(res).FairShare+list[2].ResourceShare(res).FairShare < 1, "C09.lower-priority-gets-at-most-the-rounding-remainder")
+	}
+	vr.Cover(left == 0 && !allSatisfied, "C09.cover.surplus-exhausted-with-unsatisfied-queues")
+}
